@@ -1,6 +1,6 @@
 (* C07 - PAM protection edits are applied and annotated exactly as requested. *)
 From VV Require Import Model.Base Model.Pattern Model.Gpo Model.Views Spec.LiftSpec Proofs.ViewsProofs Proofs.PamSeqProofs Proofs.ViewsSgrnaProofs
-  Model.CodonTable Model.Transcript Model.PpeSeq Model.PamAnnot Proofs.AnnotWalkProofs Proofs.PpeSeqProofs Proofs.PamAnnotProofs.
+  Model.CodonTable Model.Transcript Model.PpeSeq Model.PamAnnot Proofs.AnnotWalkProofs Proofs.PpeSeqProofs Proofs.PamAnnotProofs Proofs.GpoTop Model.PamSeqBg Proofs.PpeSeqBgProofs.
 
 (* pam_seq carries the ALT base at the positions of the applied edits (those that get_ppe_seq hands to apply_variants:
    listed sgRNA, inside the targeton, sorted by position) and the background base everywhere else *)
@@ -83,6 +83,21 @@ Theorem C07_edits_applied_exactly_inside_targeton : forall start ctx tr ppes,
                            | Some x => Some x | None => znth (p - start) ctx end.
 Proof. exact ppe_seq_exact. Qed.
 
+(* the same under background variants: the edits of the targeton's guides are first moved to background coordinates (a position with no
+   image refuses: C15); the edit of position p is then found at its image r2a p when that image lies inside the lifted targeton, and every
+   other base of the background context is unchanged *)
+Theorem C07_edits_applied_under_background : forall g r vs, 0 < rs r -> wf (rs r) (re r) vs -> gpo_for g r vs ->
+  forall start ctx_bg tr_alt ppes,
+  in_ctx r ppes -> (forall v, In v ppes -> is_snv v) -> NoDup (map v_pos ppes) ->
+  (forall v, In v ppes -> deleted vs (v_pos v) = false) ->
+  start <= rs tr_alt -> re tr_alt <= start + zlen ctx_bg - 1 ->
+  exists l s, lift_ppes g ppes = Ok l /\ ppe_seq_bg g start ctx_bg tr_alt ppes = Ok s /\ zlen s = zlen ctx_bg /\
+    Forall2 (fun v w => r2a vs (v_pos v) = Some (v_pos w) /\ v_ref w = v_ref v /\ v_alt w = v_alt v) ppes l /\
+    forall q, start <= q < start + zlen ctx_bg ->
+      znth (q - start) s = match (if in_range q tr_alt then edit_at l q else None) with
+                           | Some x => Some x | None => znth (q - start) ctx_bg end.
+Proof. exact ppe_seq_bg_exact. Qed.
+
 (* ---- pam_mut_annot (Targeton.get_ppe_mut_types), without background variants ---- *)
 
 (* the codon of an applied edit is read at the same three positions of the coding walk - completed across exon junctions,
@@ -110,3 +125,4 @@ Proof. exact pam_annot_example. Qed.
 Print Assumptions C07_edits_applied_exactly_inside_targeton.
 Print Assumptions C07_pam_annot_is_walk_translation.
 Print Assumptions C07_pam_annot_example.
+Print Assumptions C07_edits_applied_under_background.
